@@ -10,6 +10,7 @@ fn main() {
     let args: Vec<String> = std::env::args().collect();
     let seed: u64 = args.get(1).and_then(|s| s.parse().ok()).unwrap_or(1);
     let n: u64 = args.get(2).and_then(|s| s.parse().ok()).unwrap_or(200);
+    v_schema::generate::set_small(true);
     let mut st = Stats::default();
     let progress = std::env::var_os("C13_MIRI_PROGRESS").is_some();
     let t0 = std::time::Instant::now();
